@@ -13,7 +13,7 @@ use serde_json::json;
 
 const BOUND: i32 = 50_000;
 
-fn eval_of(p: &Pos) -> Result<(i32, BoardState), String> {
+pub fn eval_of(p: &Pos) -> Result<(i32, BoardState), String> {
     let fen = p.to_fen6(0, 1);
     par::catch(|| {
         let b = load_fen(&fen)?;
@@ -23,7 +23,7 @@ fn eval_of(p: &Pos) -> Result<(i32, BoardState), String> {
     .and_then(|r| r)
 }
 
-fn check_placement(p: &Pos, acc: &mut Acc, rng: &mut Rng, sample: bool) {
+pub fn check_placement(p: &Pos, acc: &mut Acc, rng: &mut Rng, sample: bool) {
     acc.evaluations += 1;
     let case = json!({"kind": "placement", "property": "C14", "fen": p.to_fen()});
     let (e, b) = match eval_of(p) {
@@ -93,7 +93,7 @@ fn check_placement(p: &Pos, acc: &mut Acc, rng: &mut Rng, sample: bool) {
 
 /// Symmetric filler realising game phase `phase` (each pair = white piece + black piece on the
 /// mirrored square, so the filler's own contribution cancels). Avoids `reserved`.
-fn add_filler(p: &mut Pos, phase: i32, reserved: u8) {
+pub fn add_filler(p: &mut Pos, phase: i32, reserved: u8) {
     // phase values: N/B 1, R 2, Q 4 ; a mirrored pair adds twice that
     let mut left = phase;
     let mut squares: Vec<u8> = (8..32u8).filter(|&s| s != reserved && (7 - rank_of(s)) * 8 + file_of(s) != reserved as i32).collect();
